@@ -387,6 +387,7 @@ impl<'a, 'b> TagBlock<'a, 'b> {
 
             // Tags are potentially `{% endtag %}`
             if element.as_rule() == Rule::Tag {
+                let tag_str = element.as_str();
                 let mut tag = element
                     .into_inner()
                     .next()
@@ -407,6 +408,14 @@ impl<'a, 'b> TagBlock<'a, 'b> {
                             let output = match end_pos {
                                 Some(end_pos) => start_pos.span(&end_pos).as_str(),
                                 None => "",
+                            };
+                            // Whitespace right before the closing tag may have been claimed
+                            // by a merely markup-looking `-%}` / `-}}` inside the content; a
+                            // `{%-` on the closing tag removes it all the same.
+                            let output = if tag_str.trim_start().starts_with("{%-") {
+                                output.trim_end_matches([' ', '\t', '\n', '\r'])
+                            } else {
+                                output
                             };
 
                             return Ok(output);
